@@ -605,7 +605,9 @@ From V Require Import Serialize LegalHistBase LegalHistEntry LegalHistStep Legal
    Static conditions of the run-level theorems (RunConformInitialStep.static_ib): micro_static_ib, root_unmentionedb,
    chart_named, root_onexit_emptyb (as for the core) and
      root_plainb       <scxml> has no <initial> child element
-     root_singleb      the 'initial' attribute of <scxml> names ONE state (which may lie arbitrarily deep).
+   (the 'initial' attribute of <scxml> may name several states at any depth: Spec.spec_run applies the body of
+   computeEntrySet's loop, Spec.entry_step, to the document's initial transition Spec.init_trans -- the descendants of
+   ALL its targets, then the ancestors of its effective targets up to its domain, as enterStates in Appendix D).
    Every new condition comes with a witness below that it cannot be dropped.  The dynamic guards (step_guardb,
    run_guardb, run_completeb, unrelated_enabledb, conds_pureb, descs_okb) are those of the core theorems, unchanged.
    Not covered: <history> (outside wf_initb); everything the core theorems do not cover either. *)
@@ -708,8 +710,8 @@ Theorem step_conforms_initial : forall late t0 l s ev x,
 Proof. exact step_conforms_initial_main. Qed.
 Print Assumptions step_conforms_initial.
 
-(* (3) The initial microstep (the 'initial' attribute of <scxml> may name a state at any depth: the states on the path
-   and the default descendants are entered), one call of step() with all its branches, and whole runs: the statements
+(* (3) The initial microstep (the 'initial' attribute of <scxml> may name one or several states at any depth: the
+   states on the paths and the default descendants are entered), one call of step() with all its branches, and whole runs: the statements
    of initial_step_conforms, large_step_conforms, run_conforms, run_conforms_prefix with static_ib for static_okb.
    RunConformInitialStep.rsimH is RunConformStep.rsim with legality over the tree of proper states
    (LegalHistStep.LegalCfgH) and a well-formed recorded history. *)
@@ -774,22 +776,11 @@ Print Assumptions run_conforms_initial_hypotheses_satisfiable.
 (* (4) none of the new conditions can be dropped (witnesses by computation; all other static conditions, the run
    guard and completeness hold; static_i_parts_of lists wf_initb, root_compoundb, par_nonemptyb, targets_antichainb,
    done_okb, root_silentb, (cpl_okb, cpl_antib, targets_properb), (root_unmentionedb, chart_named,
-   root_onexit_emptyb), (root_plainb, root_singleb)) *)
-(* <scxml initial="s3 s6">, s6 not the default of its region.  NOTE: here the ENGINE does what Appendix D prescribes
-   (theorem initial_step_conforms_appendixD below); Spec.spec_run interleaves addDescendantStatesToEnter and
-   addAncestorStatesToEnter per target and enters both s5 and s6 -- a deviation of the transliteration Spec.v from
-   the Recommendation, not of the implementation *)
-Theorem run_root_single_refuted :
-  exists late t evs fuel, let c := flatten late t in
-    static_i_parts_of c = (true, true, true, true, true, true, (true, true, true), (true, true, true), (true, false)) /\
-    run_guardb c evs fuel = true /\ run_completeb c evs fuel = true /\ views_differ late t evs fuel.
-Proof. exact RunConformInitialWitness.run_root_single_refuted. Qed.
-Print Assumptions run_root_single_refuted.
-
+   root_onexit_emptyb), root_plainb) *)
 (* an <initial> element below <scxml> (the schema has none there): the engine runs its transition, Appendix D does not *)
 Theorem run_root_initial_element_refuted :
   exists late t evs fuel, let c := flatten late t in
-    static_i_parts_of c = (true, true, true, true, true, true, (true, true, true), (true, true, true), (false, true)) /\
+    static_i_parts_of c = (true, true, true, true, true, true, (true, true, true), (true, true, true), false) /\
     run_guardb c evs fuel = true /\ run_completeb c evs fuel = true /\ views_differ late t evs fuel.
 Proof. exact RunConformInitialWitness.run_root_initial_element_refuted. Qed.
 Print Assumptions run_root_initial_element_refuted.
@@ -797,7 +788,7 @@ Print Assumptions run_root_initial_element_refuted.
 (* initial="s2 s5" with s5 below s2: Appendix D also enters the default descendants of s2 *)
 Theorem run_initial_attribute_antichain_refuted :
   exists late t evs fuel, let c := flatten late t in
-    static_i_parts_of c = (true, true, true, true, true, true, (true, false, true), (true, true, true), (true, true)) /\
+    static_i_parts_of c = (true, true, true, true, true, true, (true, false, true), (true, true, true), true) /\
     run_guardb c evs fuel = true /\ run_completeb c evs fuel = true /\ views_differ late t evs fuel.
 Proof. exact RunConformInitialWitness.run_initial_attribute_antichain_refuted. Qed.
 Print Assumptions run_initial_attribute_antichain_refuted.
@@ -806,7 +797,7 @@ Print Assumptions run_initial_attribute_antichain_refuted.
    onentry of a different state in the two *)
 Theorem run_initial_attribute_names_initial_refuted :
   exists late t evs fuel, let c := flatten late t in
-    static_i_parts_of c = (true, true, true, true, true, true, (false, true, true), (true, true, true), (true, true)) /\
+    static_i_parts_of c = (true, true, true, true, true, true, (false, true, true), (true, true, true), true) /\
     run_guardb c evs fuel = true /\ run_completeb c evs fuel = true /\ views_differ late t evs fuel.
 Proof. exact RunConformInitialWitness.run_initial_attribute_names_initial_refuted. Qed.
 Print Assumptions run_initial_attribute_names_initial_refuted.
@@ -814,27 +805,28 @@ Print Assumptions run_initial_attribute_names_initial_refuted.
 (* a transition whose target is an <initial> element *)
 Theorem run_target_initial_element_refuted :
   exists late t evs fuel, let c := flatten late t in
-    static_i_parts_of c = (true, true, true, true, true, true, (true, true, false), (true, true, true), (true, true)) /\
+    static_i_parts_of c = (true, true, true, true, true, true, (true, true, false), (true, true, true), true) /\
     run_guardb c evs fuel = true /\ run_completeb c evs fuel = true /\ views_differ late t evs fuel.
 Proof. exact RunConformInitialWitness.run_target_initial_element_refuted. Qed.
 Print Assumptions run_target_initial_element_refuted.
 
-(* <scxml initial="..."> with SEVERAL targets: the engine's initial step against Appendix D's own order
-   (RunConformInitialInit.appendixD_init_eset: the descendants of all targets of the document's initial transition
-   first, then their ancestors; spec_init_e is spec_init with that entry set).  No root_singleb. *)
-Theorem initial_step_conforms_appendixD : forall late t0 l xl xs,
-  let c := flatten late t0 in let r := fs_sid (st c 0) in
-  micro_static_ib c = true -> chart_named c = true -> root_plainb c = true -> ascb (fs_completion (st c 0)) = true ->
-  is_pristine l = true -> l_cfg l = [] -> l_initd l = [] -> HistOK c (l_hist l) -> same_dyn xl xs ->
-  let rl := large_step lg_fixed ex_fixed c l xl in
-  let q := spec_init_e c (appendixD_init_eset c) xs in
-  snd rl = RC_MICROSTEPPED /\
-  corr c (fst (fst rl)) (fst q) /\ Spec.s_hv (fst q) = [] /\ same_dyn (snd (fst rl)) (snd q) /\
-  exists d dg,
-    x_out (snd (fst rl)) = TMsE :: d ++ TEe r :: TEb r :: TMsB :: x_out xl /\
-    x_out (snd q) = Spec.spec_cfg_tok c (fst q) :: TMsE :: d ++ TDiag dg :: TMsB :: x_out xs.
-Proof. exact initial_step_conforms_appendixD_lemma. Qed.
-Print Assumptions initial_step_conforms_appendixD.
+(* <scxml initial="s3 s6"> with s3, s6 two levels down in the two regions of a <parallel>, s6 not the default of its
+   region: the document satisfies static_ib, the guards hold, the engine enters s1 s2 s3 s4 s6, and the run conforms for
+   every spec fuel (an instance of run_conforms_initial).  With the earlier Spec.spec_run (targets of the document's
+   initial transition entered one by one) this document was the witness that Spec.v was not Appendix D. *)
+Theorem run_root_multi_target_conforms : forall fuel', 10 <= fuel' ->
+  spec_view 0 (fst (run_large lg_fixed ex_fixed false iw_root_multi [] 10)) = spec_view 0 (fst (run_spec false iw_root_multi [] fuel')) /\
+  snd (run_large lg_fixed ex_fixed false iw_root_multi [] 10) = snd (run_spec false iw_root_multi [] fuel').
+Proof. exact RunConformInitialWitness.run_root_multi_target_conforms. Qed.
+Print Assumptions run_root_multi_target_conforms.
+
+Theorem run_root_multi_target_hypotheses :
+  let c := flatten false iw_root_multi in
+  static_ib c = true /\ run_guardb c [] 10 = true /\ run_completeb c [] 10 = true /\
+  spec_view 0 (fst (run_large lg_fixed ex_fixed false iw_root_multi [] 10)) =
+    [TMsB; TEb 1%N; TEe 1%N; TEb 2%N; TEe 2%N; TEb 3%N; TEe 3%N; TEb 4%N; TEe 4%N; TEb 6%N; TEe 6%N; TMsE; TCfg [1%N; 2%N; 3%N; 4%N; 6%N]].
+Proof. exact RunConformInitialWitness.run_root_multi_target_hypotheses. Qed.
+Print Assumptions run_root_multi_target_hypotheses.
 
 (* the new static conditions hold for every chart that satisfies the conditions of the core theorems: the theorems
    for wf_initb subsume those for wf_coreb *)
